@@ -28,7 +28,7 @@ ASSUMPTIONS = ['virtual clock patched over cpppo.history.files.timer and cpppo.h
                'out-of-order timestamps are not generated (the loader documents that it ignores them)']
 REQUIRED = ['state:INITIAL', 'state:SWITCHING', 'state:STREAMING', 'state:EXHAUSTED', 'state:AWAITING', 'state:COMPLETE',
             'replay:completed', 'history:single-record-file', 'history:equal-ts-inside-file', 'history:equal-ts-across-files', 'history:compressed-copy',
-            'history:comment-line', 'history:corrupt-json-line', 'monitor:on-time-rounds', 'monitor:final-values', 'setting:limit', 'setting:lookahead', 'setting:duration',
+            'history:comment-line', 'history:unusual-path', 'history:corrupt-json-line', 'monitor:on-time-rounds', 'monitor:final-values', 'setting:limit', 'setting:lookahead', 'setting:duration',
             'start:inside', 'start:before', 'start:after']
 TIMEOUT = {'quick': 300, 'thorough': 1800}
 SOFT = {'quick': 30, 'thorough': 420}
@@ -102,6 +102,10 @@ def gen_case(rng):
         'factor': rng.choice([0.25, 1.0, 1.0, 3.0, 1000.0]),
         'lookahead': rng.choice([None, None, 0.0, 0.5, 60.0]),
         'limit': rng.choice([None, None, 1, 3, 1000]),
+        # where the history lives is not supposed to matter: directory and base names with characters that mean something to globbing,
+        # regular expressions or shells
+        'dirprefix': rng.choice(['c18-', 'c18-', 'c18-unit[1]-', 'c18-a*b-', 'c18-q?-', 'c18 sp ace-', 'c18-(x)+-']),
+        'basename': rng.choice(['h.hst', 'h.hst', 'plant[A].hst', 'h+.hst', 'h.h.hst', 'däta.hst']),
         'duration': rng.choice([None, None, None, None, 'mid']),
         'steps': [rng.choice([0.01, 0.01, 0.05, 0.5, 1, 7.3, 60, 3600, 100000]) for _ in range(400)],
     }
@@ -110,7 +114,7 @@ def gen_case(rng):
 def write_history(d, case):
     """Writes the files with the real logger; returns path.  Newest file has no extension, older ones .1 .2 ..."""
     from cpppo.history import logger, timestamp
-    path = os.path.join(d, 'h.hst')
+    path = os.path.join(d, case.get('basename', 'h.hst'))
     n = len(case['files'])
     for i, f in enumerate(case['files']):
         e = n - 1 - i
@@ -197,7 +201,9 @@ def run_case(ctx, case, keep=None):
     ctx = _Attributing(ctx, case)
     from cpppo.history import files as hf, times as ht
     from cpppo.history import loader
-    d = tempfile.mkdtemp(prefix='c18-')
+    d = tempfile.mkdtemp(prefix=case.get('dirprefix', 'c18-'), dir=os.environ.get('VERIF_TMP') or None)
+    if case.get('dirprefix', 'c18-') != 'c18-' or case.get('basename', 'h.hst') != 'h.hst':
+        ctx.count('history:unusual-path')
     wit = {'case': case}
     try:
         path = write_history(d, case)
